@@ -79,6 +79,20 @@ pub enum Adversary {
     SwapCrc { block_no: u32 },
     /// every command frame is answered with the command-CRC-error bit set and is not executed (noisy line to the card)
     AlwaysCrcError,
+    /// the n-th CMD55 frame of the session arrives damaged at a card that checks command CRCs: answered with the
+    /// CRC-error bit, not executed, so the command that follows is not an application command for the card and is
+    /// answered "illegal command". (The one damaged-command fault the checker can judge: the driver's retry loops
+    /// around ACMD41 absorb it, and ACMD23 is only a hint.)
+    Cmd55Damaged { nth: u32 },
+    /// the frame that follows the n-th accepted CMD55 (the application command itself) arrives damaged: answered
+    /// with the CRC-error bit, not executed, and the prefix is used up
+    AcmdDamaged { nth: u32 },
+    /// the n-th CMD8 frame arrives damaged (the card checks command CRCs by then): answered with the CRC-error bit
+    /// and no R7; the card has not seen a CMD8
+    Cmd8Damaged { nth: u32 },
+    /// from the k-th byte exchanged on: this one byte for ever (a line stuck in a pattern that is neither "busy"
+    /// 0x00 nor "idle" 0xFF: 0x55, 0xAA, 0x7F ...)
+    ConstFrom(u64, u8),
 }
 
 #[derive(Clone, Debug, serde::Serialize, serde::Deserialize)]
@@ -194,6 +208,10 @@ pub struct SimCard {
     stage: u8, // 0 power-on, 1 CMD0 done, 2 CMD8 done, 3 ACMD41 ready, 4 CMD58 done (v2)
     crc_on: bool,
     app_cmd: bool,
+    cmd55_seen: u32,
+    cmd8_frames: u32,
+    acmd_seen: u32,
+    prefix_damaged: bool,
     acmd41_seen: u32,
     cmd0_seen: u8,
     rx: Rx,
@@ -256,6 +274,10 @@ impl SimCard {
             stage: 0,
             crc_on: false,
             app_cmd: false,
+            cmd55_seen: 0,
+            cmd8_frames: 0,
+            acmd_seen: 0,
+            prefix_damaged: false,
             acmd41_seen: 0,
             cmd0_seen: 0,
             rx: Rx::Idle,
@@ -335,12 +357,17 @@ impl SimCard {
         }
     }
 
+    /// does the card check CRCs at the moment (CMD59 with bit 0 set since the last CMD0)
+    pub fn crc_checking(&self) -> bool {
+        self.crc_on
+    }
+
     fn err(&mut self, s: String) {
         // while the card itself is misbehaving on the wire the host cannot know the card's state:
         // the conversation is judged again once the card has been power-cycled
         let n = self.bytes;
         let blind = match self.cfg.adversary {
-            Adversary::SilentFrom(k) | Adversary::BusyFrom(k) | Adversary::GarbageFrom(k) => n > k,
+            Adversary::SilentFrom(k) | Adversary::BusyFrom(k) | Adversary::GarbageFrom(k) | Adversary::ConstFrom(k, _) => n > k,
             _ => false,
         };
         if blind || self.suspend_judgement {
@@ -497,6 +524,45 @@ impl SimCard {
                 return;
             }
         }
+        let prefix_damaged = self.prefix_damaged;
+        self.prefix_damaged = false;
+        if cmd == 55 {
+            if let Adversary::Cmd55Damaged { nth } = &self.cfg.adversary {
+                let k = self.cmd55_seen;
+                self.cmd55_seen += 1;
+                if self.crc_on && k == *nth {
+                    self.adversary_fired += 1;
+                    self.prefix_damaged = true;
+                    let r = self.r1() | 0x08;
+                    self.queue_response(&[r]);
+                    return;
+                }
+            }
+        }
+        if cmd == 8 && !was_app {
+            if let Adversary::Cmd8Damaged { nth } = &self.cfg.adversary {
+                let k = self.cmd8_frames;
+                self.cmd8_frames += 1;
+                if k == *nth && self.spi_mode {
+                    self.adversary_fired += 1;
+                    let r = self.r1() | 0x08;
+                    self.queue_response(&[r]);
+                    return;
+                }
+            }
+        }
+        if was_app {
+            if let Adversary::AcmdDamaged { nth } = &self.cfg.adversary {
+                let k = self.acmd_seen;
+                self.acmd_seen += 1;
+                if self.crc_on && k == *nth {
+                    self.adversary_fired += 1;
+                    let r = self.r1() | 0x08;
+                    self.queue_response(&[r]);
+                    return;
+                }
+            }
+        }
         // a card that checks CRCs refuses a frame with a bad one
         if (self.crc_on || cmd == 0 || cmd == 8) && f[5] != want_crc {
             let r = self.r1() | 0x08;
@@ -604,7 +670,10 @@ impl SimCard {
                 self.queue_response(&[r]);
             }
             (41, false) | (23, false) => {
-                self.err(format!("application command {} not directly preceded by CMD55", cmd));
+                // (the host did send the prefix when it was the damaged frame: nothing to blame it for)
+                if !prefix_damaged {
+                    self.err(format!("application command {} not directly preceded by CMD55", cmd));
+                }
                 let r = self.r1() | 0x04;
                 self.queue_response(&[r]);
             }
@@ -870,6 +939,10 @@ impl SimCard {
             }
             Adversary::GarbageFrom(k) if n >= k => {
                 out = self.rng.next_u32() as u8;
+                self.adversary_fired += 1;
+            }
+            Adversary::ConstFrom(k, b) if n >= k => {
+                out = b;
                 self.adversary_fired += 1;
             }
             _ => {}
